@@ -149,8 +149,13 @@ for _ctor, _params, _post in (
 # ------------------------------------------------------------------------------ reporters and output modes
 # Ghost streams: a printer is an opaque FilePrinter; everything written through it is an event.
 
+class _FileOfPrinterI(Interface):
+    methods = {'flush': Method(event='flush')}
+
+
 class PrinterI(Interface):
     target_class = FilePrinter
+    attrs = {'file': Iface(_FileOfPrinterI)}
     methods = {
         'write_colored_line': Method(event='line', params=['line', 'color']),
         'write_line': Method(event='line', params=['line', 'indent']),
@@ -162,6 +167,11 @@ class PrinterI(Interface):
 def lines_on(trace, printer):
     """the lines written to `printer`, in order"""
     return [e[2][0] for e in trace if e[0] == 'line' and e[1] is printer]
+
+
+def calls(trace):
+    """the call events (without the ':returned' / ':raised' outcome events)"""
+    return [e for e in trace if ':' not in e[0]]
 
 
 def touched(trace, printer):
@@ -176,7 +186,13 @@ def _mk_env(interp, name):
     return process_result_reporter.Environment(Any_.make(interp, name + '.std_files'), printers)
 
 
-ENVIRONMENT = Custom(_mk_env)
+def _mk_env_concrete(cx, name):
+    out = Iface(PrinterI).concrete(cx, name + '.out')
+    err = Iface(PrinterI).concrete(cx, name + '.err')
+    return process_result_reporter.Environment(object(), process_result_reporter.StdOutputFilePrinters(out, err))
+
+
+ENVIRONMENT = Custom(_mk_env, concrete=_mk_env_concrete)
 
 # assumed: the renderers of error messages write to the printer they are given and to nothing else
 M.contract('exactly_lib.common.result_reporting:print_error_message_for_full_result', trusted=True,
@@ -207,7 +223,12 @@ def _mk_reporter(cls):
         r._reporting_environment = _mk_env(interp, name + '.env')
         return r
 
-    return Custom(mk)
+    def mk_concrete(cx, name):
+        r = object.__new__(cls)
+        r._reporting_environment = _mk_env_concrete(cx, name + '.env')
+        return r
+
+    return Custom(mk, concrete=mk_concrete)
 
 
 NORMAL = _mk_reporter(result_reporting._ResultReporterForNormalOutput)
@@ -294,6 +315,12 @@ M.contract(P_RR + ':_ResultReporterForNormalOutput.depends_on_result_in_sandbox'
            ensures={'sandbox-removed': lambda ret: ret is False}, raises_only=())
 
 
+# (C04: "the sandbox is removed unless --keep": --act does not keep it either)
+M.contract(P_RR + ':_ResultReporterForActPhaseOutput.depends_on_result_in_sandbox', params=dict(self=ACT),
+           inline=True,
+           ensures={'sandbox-removed': lambda ret: ret is False}, raises_only=())
+
+
 @M.check('constants')
 def _constants(ctx):
     """Finite obligations on the real module constants (read from the imported current tree)."""
@@ -312,3 +339,343 @@ def _constants(ctx):
         ctx.obligation('enum coherence ExecutionFailureStatus.%s -> FullExeResultStatus' % m.name, ok, 'enumeration')
     for s in FullExeResultStatus:
         ctx.obligation('every verdict has a table row: %s' % s.name, s.name in CODE, 'enumeration')
+
+
+# ------------------------------------------------------------------------------ invalid usage: exit 64, nothing on stdout
+from exactly_lib.cli import main_program
+from exactly_lib.util import argument_parsing_utils
+from exactly_lib.processing.standalone import processor as standalone_processor
+from exactly_lib.processing import processors
+from exactly_lib.execution.configuration import ExecutionConfiguration
+from exactly_lib.impls.instructions.configuration import test_case_status as status_instruction
+from exactly_lib.test_case import test_case_status as tcs
+
+P_MP = 'exactly_lib.cli.main_program'
+
+
+class FileI(Interface):
+    """a text stream (sys.stderr / sys.stdout): writes are ghost events"""
+    methods = {'write': Method(event='file-write'), 'flush': Method(event='file-flush')}
+
+
+class StdFilesI(Interface):
+    attrs = {'out': Iface(FileI), 'err': Iface(FileI)}
+
+
+def _mk_env_w_files(interp, name):
+    out = Iface(PrinterI).make(interp, name + '.printers.out')
+    err = Iface(PrinterI).make(interp, name + '.printers.err')
+    printers = process_result_reporter.StdOutputFilePrinters(out, err)
+    return process_result_reporter.Environment(Iface(StdFilesI).make(interp, name + '.std_files'), printers)
+
+
+M.contract(P_MP + ':_InvalidUsageReporter.report',
+           params=dict(self=Inst(main_program._InvalidUsageReporter, _error_message=Str),
+                       environment=Custom(_mk_env_w_files)),
+           returns=Int,
+           ensures={
+               'exit-code-64': lambda ret: ret == 64,
+               'message-on-stderr-only-no-identifier-on-stdout': lambda self, environment, trace:
+               [e[1] for e in calls(trace)] == [environment.std_files.err, environment.std_files.err]
+               and calls(trace)[0][2][0] == self._error_message,
+           }, raises_only=())
+
+
+class ArgParseCallableI(Interface):
+    """parses the command line and builds the reporter of the command, or rejects the command line"""
+    methods = {'__call__': Method(returns=Any_, may_raise=(
+        lambda interp, o: argument_parsing_utils.ArgumentParsingError(Str.make(interp, 'usage-error')),))}
+
+
+M.contract(P_MP + ':_parse_and_exit_on_error',
+           params=dict(parse_arguments_and_execute_callable=Iface(ArgParseCallableI), arguments=Any_),
+           returns=Any_,
+           raises={main_program._StartupError: {
+               'ensures': lambda exc: isinstance(exc.result, main_program._InvalidUsageReporter)}},
+           ensures={'otherwise-the-reporter-of-the-command': lambda ret: True},
+           raises_only=())
+
+# ------------------------------------------------------------------------------ the status instruction
+
+class ConfBuilderI(Interface):
+    methods = {'set_test_case_status': Method(event='set-status')}
+
+
+M.contract('exactly_lib.impls.instructions.configuration.test_case_status:_Instruction.main',
+           params=dict(self=Inst(status_instruction._Instruction, mode_to_set=EnumOf(TestCaseStatus)),
+                       configuration_builder=Iface(ConfBuilderI)),
+           ensures={'sets-exactly-the-parsed-status': lambda self, configuration_builder, trace:
+           trace == [('set-status', configuration_builder, (self.mode_to_set,)),
+                     ('set-status:returned', configuration_builder, None)],
+                    'succeeds': lambda ret: ret.is_success},
+           raises_only=())
+
+# ------------------------------------------------------------------------------ plumbing of the output mode into the execution
+
+
+class ReporterI(Interface):
+    """any of the three result reporters, through the two questions the processor asks it"""
+    methods = {'depends_on_result_in_sandbox': Method(returns=Bool, pure=True),
+               'execute_atc_and_skip_assertions': Method(returns=Opt(Any_), pure=True)}
+
+
+class PredefPropsI(Interface):
+    attrs = {'default_environ_getter': Any_, 'environ': Any_, 'timeout_in_seconds': Any_, 'predefined_symbols': Any_}
+
+
+class TcDefI(Interface):
+    attrs = {'predefined_properties': Iface(PredefPropsI), 'parsing_setup': Any_}
+
+
+M.contract('exactly_lib.processing.processors:new_executor_that_may_pollute_current_processes2', trusted=True,
+           params=dict(exe_configuration=Any_, act_phase_setup=Any_, is_keep_sandbox=Bool), returns=Any_,
+           event='new-executor')
+M.contract('exactly_lib.util.symbol_table:symbol_table_from_none_or_value', trusted=True,
+           params=dict(symbol_table_or_none=Any_), returns=Any_)
+M.trust('processors.new_executor_that_may_pollute_current_processes2 stores its three arguments (constructor of '
+        '_Executor; its use of is_keep_sandbox and exe_atc_and_skip_assertions is C04 / C01)')
+
+M.contract('exactly_lib.processing.standalone.processor:Processor._executor',
+           params=dict(self=Inst(standalone_processor.Processor, _test_case_definition=Iface(TcDefI),
+                                 _os_services=Any_, _suite_configuration_section_parser=Any_, _mem_buff_size=Int),
+                       act_phase_setup=Any_, is_keep_sandbox=Bool, sandbox_root_dir_resolver=Any_,
+                       result_reporter=Iface(ReporterI)),
+           returns=Any_,
+           ensures={'keep-flag-and-act-output-files-reach-the-executor': lambda is_keep_sandbox, result_reporter, trace:
+           len(calls(trace)) == 1 and calls(trace)[0][0] == 'new-executor'
+           and calls(trace)[0][1]['is_keep_sandbox'] is is_keep_sandbox
+           and calls(trace)[0][1]['exe_configuration'].exe_atc_and_skip_assertions
+           is result_reporter.execute_atc_and_skip_assertions()},
+           raises_only=())
+
+
+# ------------------------------------------------------------------------------ a test case beside a broken suite file
+# A case run on its own takes its configuration from the `exactly.suite` beside it (or --suite): a syntax error in
+# THAT file also "prevents execution", and is reported through the same three output modes: the identifier line on
+# stdout in normal mode only; with --keep and --act stdout belongs to the sandbox path / the action's output, and
+# the identifier goes to stderr.
+from exactly_lib.test_suite.file_reading.exception import SuiteParseError as _SuiteParseError
+from exactly_lib.test_suite import error_reporting as _suite_error_reporting
+from exactly_lib.common import result_reporting as _common_result_reporting
+
+EXIT_VALUE = Inst(ExitValue, _tuple=[Int, Str, EnumOf(ForegroundColor)])
+
+
+class _DocParseErrorI(Interface):
+    """the ParseError of the document parser inside a SuiteParseError; `accept(_GetParseErrorExitValue())` gives
+    the exit value (SYNTAX_ERROR / FILE_ACCESS_ERROR: constants of processing.exit_values, check `constants`)"""
+    methods = {'accept': Method(returns=EXIT_VALUE, event='exit-value-of-parse-error')}
+
+
+SUITE_PARSE_ERROR = Inst(_SuiteParseError, _suite_file=Any_, _maybe_section_name=Any_,
+                         _document_parser_exception=Iface(_DocParseErrorI))
+
+
+class _CaseProcessorI(Interface):
+    methods = {'apply': Method(returns=RESULT2, ensures=lambda self, test_case, result: result_is_well_formed(result)
+                               and ((not _completed(result))
+                                    or result.execution_result.action_to_check_outcome is not None),
+                               event='apply-processor')}
+
+
+class _SettingsI(Interface):
+    attrs = {'reporting_option': EnumOf(ReportingOption), 'test_case_file_path': Any_, 'handling_setup': Any_,
+             'run_as_part_of_explicit_suite': Any_, 'sandbox_root_dir_resolver': Any_}
+
+
+M.contract('exactly_lib.processing.standalone.processor:Processor._processor', trusted=True,
+           params=dict(self=Any_, settings=Any_, result_reporter=Any_), returns=Iface(_CaseProcessorI),
+           may_raise=(SUITE_PARSE_ERROR,), event='resolve-processor')
+M.contract('exactly_lib.test_suite.error_reporting:_suite_parse_error_renderer', trusted=True, params=dict(ex=Any_),
+           returns=Any_)
+M.contract('exactly_lib.common.result_reporting:print_major_blocks', trusted=True,
+           params=dict(blocks_renderer=Any_, printer=Iface(PrinterI)), event='error-message')
+M.contract('exactly_lib.processing.test_case_processing:test_case_reference_of_source_file', trusted=True,
+           params=dict(source_file=Any_), returns=Any_)
+M.trust('standalone Processor._processor (reads the suite file, builds accessor and executor: C17, C03) returns a '
+        'processor or raises SuiteParseError; a processor returns a well formed Result (C18); print_major_blocks '
+        'writes only to the printer it is given')
+
+
+def _suite_error_of(trace):
+    es = [e for e in trace if e[0] == 'resolve-processor:raised']
+    return es[0][2] if es else None
+
+
+def _identifier_where_the_mode_puts_it(settings, reporting_environment, ret, trace):
+    ex = _suite_error_of(trace)
+    if ex is None:
+        return True
+    ev = [e[2] for e in trace if e[0] == 'exit-value-of-parse-error:returned'][0]
+    out, err = reporting_environment.std_file_printers.out, reporting_environment.std_file_printers.err
+    if settings.reporting_option is ReportingOption.STATUS_CODE:
+        on_stdout = lines_on(trace, out) == [ev.exit_identifier] and len(touched(trace, out)) == 1
+    else:
+        on_stdout = touched(trace, out) == [] and lines_on(trace, err)[:1] == [ev.exit_identifier]
+    return on_stdout and ret == ev.exit_code
+
+
+_SUITE_ERROR_REPLAY = '''
+import subprocess, tempfile, pathlib
+import exactly_lib
+runner = pathlib.Path(exactly_lib.__file__).parent.parent / 'default-main-program-runner.py'
+bad = []
+with tempfile.TemporaryDirectory() as d:
+    d = pathlib.Path(d)
+    (d / 'a.case').write_text('[act]\\n$ true\\n')
+    (d / 'exactly.suite').write_text('[no-such-section]\\nx\\n')
+    for option in ('--keep', '--act'):
+        p = subprocess.run([sys.executable, '-W', 'ignore', str(runner), option, 'a.case'], cwd=str(d),
+                           capture_output=True, text=True, env=dict(os.environ, PYTHONPATH=str(runner.parent)))
+        print(option, 'exit', p.returncode, 'stdout', repr(p.stdout), 'stderr starts', repr(p.stderr[:40]))
+        if p.stdout != '' or not p.stderr.startswith('SYNTAX_ERROR') or p.returncode != 65:
+            bad.append(option)
+if bad:
+    print('a syntax error in the suite file beside the case: the identifier is printed on stdout with', bad)
+    sys.exit(1)
+sys.exit(0)
+'''
+
+M.contract('exactly_lib.processing.standalone.processor:Processor.process', replay=lambda model, rf: _SUITE_ERROR_REPLAY,
+           params=dict(self=Inst(standalone_processor.Processor, _test_case_definition=Any_, _os_services=Any_,
+                                 _suite_configuration_section_parser=Any_, _mem_buff_size=Int),
+                       reporting_environment=ENVIRONMENT, settings=Iface(_SettingsI)),
+           returns=Int,
+           ensures={
+               'a syntax error of the suite file: identifier on stdout in normal mode only, else on stderr; the '
+               'exit code that belongs to it': lambda settings, reporting_environment, ret, trace:
+               _identifier_where_the_mode_puts_it(settings, reporting_environment, ret, trace),
+               'otherwise the case is processed once and reported by the reporter of the output mode':
+                   lambda trace: _suite_error_of(trace) is not None
+                   or len([e for e in trace if e[0] == 'apply-processor']) == 1,
+           }, raises_only=())
+
+
+@M.check('status names')
+def _status_names(ctx):
+    ctx.obligation('NAME_2_STATUS maps PASS/SKIP/FAIL to the members of the same name',
+                   tcs.NAME_2_STATUS == {'PASS': TestCaseStatus.PASS, 'SKIP': TestCaseStatus.SKIP,
+                                         'FAIL': TestCaseStatus.FAIL},
+                   'enumeration', detail={'value': repr(tcs.NAME_2_STATUS)})
+    from exactly_lib.cli.definitions import exit_codes
+    ctx.obligation('EXIT_INVALID_USAGE == 64', exit_codes.EXIT_INVALID_USAGE == 64, 'enumeration')
+    # real parser of the status instruction on the documented spellings (finite, executed natively)
+    p = status_instruction.Parser()
+    ok = True
+    detail = {}
+    for text, want in (('= PASS', TestCaseStatus.PASS), ('= FAIL', TestCaseStatus.FAIL), ('= SKIP', TestCaseStatus.SKIP),
+                       ('= pass', TestCaseStatus.PASS), (' =  skip ', TestCaseStatus.SKIP)):
+        try:
+            got = p._parse(text).mode_to_set
+        except Exception as e:
+            got = repr(e)
+        detail[text] = str(got)
+        ok = ok and got is want
+    for text in ('= XFAIL', '= ', '= PASS FAIL'):
+        try:
+            p._parse(text)
+            ok = False
+            detail[text] = 'accepted'
+        except Exception as e:
+            detail[text] = type(e).__name__
+            ok = ok and type(e).__name__ == 'SingleInstructionInvalidArgumentException'
+    ctx.obligation('status instruction: documented spellings set the named status, anything else is a syntax error',
+                   ok, 'enumeration', detail=detail)
+
+
+# ------------------------------------------------------------------------------ verdicts of what prevents / interrupts execution
+# "anything that prevents or interrupts execution is reported as the documented error verdict": the functions
+# that decide these verdicts are under contract in C01 (a failing [conf] instruction: also under SKIP) and in
+# C03 (file access / pre-process / syntax errors of the accessor; internal errors of the processor).  Their
+# clauses carry C02 as well: the check of C02 re-proves them on the current tree.
+
+# ------------------------------------------------------------------------------ the preprocessor
+# "anything that prevents ... execution is reported as the documented error verdict": a preprocessor that does not
+# end with exit code 0 -- any other code, negative ones (killed by a signal) included -- or that cannot be started
+# is a ProcessError, which the accessor reports as PRE_PROCESS_ERROR (C03: AccessorFromParts.apply); its standard
+# output is the test case only when it exited with 0.  (After the seeded change C02-s4.)
+import subprocess as _subprocess
+import tempfile as _tempfile
+from pyvc.interp import PyRaise as _PyRaise
+from pyvc.api import ListOf, new_opaque      # noqa: E402,F811
+from exactly_lib.processing import preprocessor as _preprocessor
+
+
+def _m_pp_subprocess_call(interp, args, kwargs):
+    st = interp.st
+    st.emit('preprocessor-started', tuple(args), dict(kwargs))
+    if st.choose(2) == 1:
+        exc = OSError('subprocess: cannot execute')
+        st.emit('preprocessor:raised', exc)
+        raise _PyRaise(exc)
+    code = Int.make(interp, 'exit_code')
+    st.emit('preprocessor:returned', code)
+    return code
+
+
+class _TmpFileI(Interface):
+    """a tempfile.TemporaryFile opened w+: context manager; seek; read gives what the child wrote to it"""
+    methods = {'__enter__': Method(model=lambda interp, self, args, kwargs: self),
+               '__exit__': Method(returns=Const(None)),
+               'seek': Method(returns=Int),
+               'read': Method(returns=Str, event='read-output')}
+
+
+M.model(_subprocess.call, _m_pp_subprocess_call)
+M.model(_tempfile.TemporaryFile, lambda interp, args, kwargs: new_opaque(interp, _TmpFileI, 'tmpfile'))
+M.trust('subprocess.call returns the exit code of the child (negative: killed by a signal) or raises OSError; '
+        'tempfile.TemporaryFile(mode="w+") is a context manager giving a file that holds what the child wrote')
+
+
+class _CasePathI(Interface):
+    attrs = {'name': Str, 'parent': Any_}
+
+
+def _pp_exit(trace):
+    return [e[1] for e in trace if e[0] == 'preprocessor:returned']
+
+
+M.contract('exactly_lib.processing.preprocessor:PreprocessorViaExternalProgram.apply',
+           params=dict(self=Inst(_preprocessor.PreprocessorViaExternalProgram, external_program=ListOf(Str)),
+                       test_case_file_path=Iface(_CasePathI), test_case_source=Str),
+           returns=Str,
+           ensures={'its output is the test case only if the preprocessor exited with 0': lambda trace:
+                    _pp_exit(trace) == [0],
+                    'started once': lambda trace: len([e for e in trace if e[0] == 'preprocessor-started']) == 1},
+           raises={tcp.ProcessError: {'ensures': lambda trace: _pp_exit(trace) != [0]}},
+           raises_only=())
+
+
+def _widen():
+    import importlib
+    shared = {
+        'contracts.C01_protocol': {
+            'exactly_lib.execution.full_execution.execution:execute',
+            'exactly_lib.execution.full_execution.execution:execute_configuration_phase',
+            'exactly_lib.execution.full_execution.execution:new_configuration_phase_failure_from',
+        },
+        'contracts.C03_validation': {
+            'exactly_lib.processing.processing_utils:AccessorFromParts.apply',
+            'exactly_lib.processing.processing_utils:ProcessorFromAccessorAndExecutor.apply',
+            'exactly_lib.processing.processors:_Parser.apply',
+            'exactly_lib.processing.processors:_SourceReader.apply',
+            'exactly_lib.processing.processors:_Executor.apply',
+        },
+    }
+    # which failure an execution reports (an assertion failure followed by a failing cleanup is an interrupted
+    # execution: the error verdict, not FAIL/XFAIL) is decided by the executor classes; their contracts (C01: the
+    # protocol layers below full_execution.execute) carry C02 as well.  (After the seeded change C02-s5.)
+    from contracts.common import share_contracts
+    from contracts import C01_protocol as _c01
+    _layers = (_c01.P_EX + ':', _c01.P_PSE + ':', _c01.P_SIE + ':')
+    share_contracts('C02', 'contracts.C01_protocol', lambda q: q.startswith(_layers))
+    for modname, qnames in shared.items():
+        mod = importlib.import_module(modname)
+        have = {c.qname for c in mod.M.contracts}
+        assert qnames <= have, qnames - have
+        for c in mod.M.contracts:
+            if c.qname in qnames:
+                c.props = tuple(sorted(set(c.props) | {'C02'}))
+
+
+M.after_load = _widen
